@@ -12,6 +12,7 @@
            have no Flocq counterpart); it is not executable and is tied to the code by tolerance TESTS only. *)
 From Coq Require Import List ZArith Bool.
 From Flocq Require Import Core BinarySingleNaN.
+From DuneV Require Import Params_gen.
 Import ListNotations.
 
 (* ------------------------------------------------------------------------------------------------ Part 1 *)
@@ -107,6 +108,87 @@ Definition c08_eigenvaluesvectors2 (rel perp : bool) (thrq thrid : T) (m : c08_m
   c08_bind (c08_ev2 thrq m) (fun ev => c08_bind (c08_evec2 rel perp thrid m ev) (fun vs => C08_Ok (ev, vs))).
 End C08Closed.
 
+(* ------------------------------------------------------------------------------------------------ Part 1b
+   The 3x3 eigenvector kernels Impl::crossProduct / eig0 / orthoComp / eig1 over the same operation record, operation by
+   operation in the order the C++ expressions evaluate (FieldVector/FieldMatrix helpers inlined: two_norm = sqrt(0 + x^2 + ...),
+   mv: y_i = 0; y_i += a_ij x_j, dot: result(0); result += x_i y_i).  Instantiated at R these ARE the functions of C08_Spec.v the
+   theorems C08_3x3_* are about (C08_Proofs_Kernels.v); instantiated at binary64 they are diffed bit for bit against the code. *)
+Section C08Kernels3.
+Context {T : Type} (o : c08_ops T).
+Notation "x +! y" := (c08_add o x y) (at level 50, left associativity).
+Notation "x -! y" := (c08_sub o x y) (at level 50, left associativity).
+Notation "x *! y" := (c08_mul o x y) (at level 40, left associativity).
+Definition c08g_vec3 := (T * T * T)%type.
+Definition c08g_mat3 := (c08g_vec3 * c08g_vec3 * c08g_vec3)%type.
+
+Definition c08g_cross (u v : c08g_vec3) : c08g_vec3 :=
+  let '(u0, u1, u2) := u in let '(v0, v1, v2) := v in
+  (u1 *! v2 -! u2 *! v1, u2 *! v0 -! u0 *! v2, u0 *! v1 -! u1 *! v0).
+Definition c08g_norm3 (v : c08g_vec3) : T :=
+  let '(v0, v1, v2) := v in c08_sqrt o (c08_zero o +! v0 *! v0 +! v1 *! v1 +! v2 *! v2).
+Definition c08g_div3 (v : c08g_vec3) (d : T) : c08_res c08g_vec3 :=
+  let '(v0, v1, v2) := v in
+  c08_bind (c08_divc o v0 d) (fun x => c08_bind (c08_divc o v1 d) (fun y => c08_bind (c08_divc o v2 d) (fun z => C08_Ok (x, y, z)))).
+Definition c08g_dot3 (u v : c08g_vec3) : T :=
+  let '(u0, u1, u2) := u in let '(v0, v1, v2) := v in c08_zero o +! u0 *! v0 +! u1 *! v1 +! u2 *! v2.
+Definition c08g_mv3 (A : c08g_mat3) (x : c08g_vec3) : c08g_vec3 :=
+  let '(r0, r1, r2) := A in (c08g_dot3 r0 x, c08g_dot3 r1 x, c08g_dot3 r2 x).
+Definition c08g_smul3 (k : T) (v : c08g_vec3) : c08g_vec3 := let '(v0, v1, v2) := v in (k *! v0, k *! v1, k *! v2).
+Definition c08g_sub3 (u v : c08g_vec3) : c08g_vec3 :=
+  let '(u0, u1, u2) := u in let '(v0, v1, v2) := v in (u0 -! v0, u1 -! v1, u2 -! v2).
+
+(* eig0: (imax, evec0) *)
+Definition c08g_eig0 (A : c08g_mat3) (l : T) : c08_res (nat * c08g_vec3) :=
+  let '((a00, a01, a02), (a10, a11, a12), (a20, a21, a22)) := A in
+  let row0 := (a00 -! l, a01, a02) in let row1 := (a10, a11 -! l, a12) in let row2 := (a20, a21, a22 -! l) in
+  let r0xr1 := c08g_cross row0 row1 in let r0xr2 := c08g_cross row0 row2 in let r1xr2 := c08g_cross row1 row2 in
+  let d0 := c08g_norm3 r0xr1 in let d1 := c08g_norm3 r0xr2 in let d2 := c08g_norm3 r1xr2 in
+  let '(dmax, imax) := if c08_ltb o d0 d1 then (d1, 1%nat) else (d0, 0%nat) in
+  let imax := if c08_ltb o dmax d2 then 2%nat else imax in
+  match imax with
+  | 0%nat => c08_bind (c08g_div3 r0xr1 d0) (fun v => C08_Ok (0%nat, v))
+  | 1%nat => c08_bind (c08g_div3 r0xr2 d1) (fun v => C08_Ok (1%nat, v))
+  | _ => c08_bind (c08g_div3 r1xr2 d2) (fun v => C08_Ok (2%nat, v))
+  end.
+
+(* orthoComp: (u, v) *)
+Definition c08g_orthocomp (e : c08g_vec3) : c08_res (c08g_vec3 * c08g_vec3) :=
+  let '(e0, e1, e2) := e in
+  c08_bind (if c08_ltb o (c08_abs o e1) (c08_abs o e0)
+            then c08_bind (c08_divc o (c08_one o) (c08_sqrt o (c08_zero o +! e0 *! e0 +! e2 *! e2)))
+                          (fun L => C08_Ok (c08g_smul3 L (c08_neg o e2, c08_zero o, e0)))
+            else c08_bind (c08_divc o (c08_one o) (c08_sqrt o (c08_zero o +! e1 *! e1 +! e2 *! e2)))
+                          (fun L => C08_Ok (c08g_smul3 L (c08_zero o, e2, c08_neg o e1))))
+    (fun u => C08_Ok (u, c08g_cross e u)).
+
+(* eig1 *)
+Definition c08g_eig1 (A : c08g_mat3) (e : c08g_vec3) (l1 : T) : c08_res c08g_vec3 :=
+  c08_bind (c08g_orthocomp e) (fun uv =>
+  let '(u, v) := uv in
+  let Au := c08g_mv3 A u in let Av := c08g_mv3 A v in
+  let m00 := c08g_dot3 u Au -! l1 in let m01 := c08g_dot3 u Av in let m11 := c08g_dot3 v Av -! l1 in
+  let absM00 := c08_abs o m00 in let absM01 := c08_abs o m01 in let absM11 := c08_abs o m11 in
+  let unitc (t : T) := c08_divc o (c08_one o) (c08_sqrt o (c08_one o +! t *! t)) in
+  if c08_leb o absM11 absM00 then
+    if c08_ltb o (c08_zero o) (c08_max o absM00 absM01) then
+      if c08_leb o absM01 absM00 then
+        c08_bind (c08_divc o m01 m00) (fun t => c08_bind (unitc t) (fun c =>
+          C08_Ok (c08g_sub3 (c08g_smul3 (t *! c) u) (c08g_smul3 c v))))
+      else
+        c08_bind (c08_divc o m00 m01) (fun t => c08_bind (unitc t) (fun c =>
+          C08_Ok (c08g_sub3 (c08g_smul3 c u) (c08g_smul3 (t *! c) v))))
+    else C08_Ok u
+  else
+    if c08_ltb o (c08_zero o) (c08_max o absM11 absM01) then
+      if c08_leb o absM01 absM11 then
+        c08_bind (c08_divc o m01 m11) (fun t => c08_bind (unitc t) (fun c =>
+          C08_Ok (c08g_sub3 (c08g_smul3 c u) (c08g_smul3 (t *! c) v))))
+      else
+        c08_bind (c08_divc o m11 m01) (fun t => c08_bind (unitc t) (fun c =>
+          C08_Ok (c08g_sub3 (c08g_smul3 (t *! c) u) (c08g_smul3 c v))))
+    else C08_Ok u).
+End C08Kernels3.
+
 (* ---- instance (b): IEEE binary64, round to nearest even (x86-64 SSE2 double, no FMA contraction) ---- *)
 Definition c08_prec64 := 53%Z.
 Definition c08_emax64 := 1024%Z.
@@ -150,6 +232,9 @@ Definition c08_b64_to_bits (v : c08_b64) : option Z :=       (* None = NaN *)
     else Some (sb s + (e + 1075) * 2 ^ 52 + (Zpos m - 2 ^ 52))%Z
   end.
 
+Definition c08_b64_eig0 := c08g_eig0 c08_b64_ops.
+Definition c08_b64_orthocomp := c08g_orthocomp c08_b64_ops.
+Definition c08_b64_eig1 := c08g_eig1 c08_b64_ops.
 Definition c08_b64_eigenvalues2 := c08_eigenvalues2 c08_b64_ops.
 Definition c08_b64_eigenvaluesvectors2 := c08_eigenvaluesvectors2 c08_b64_ops.
 
@@ -220,11 +305,17 @@ Definition c08_rows_list (n : nat) (a : list T) : list (list T) :=
 Record c08_syev_args := C08Syev { c08_jobz : bool (* 'v' *); c08_uplo_upper : bool; c08_sy_n : nat; c08_sy_a : list T;
                                   c08_sy_lda : nat; c08_sy_lwork : nat }.
 
+(* the call as the source writes it; the job character "nv"[Tag], uplo and the workspace formula lwork = 3*N - 1 are re-read
+   from the source (Params_gen.v, tools/params.d/C08.py) *)
+Definition c08_lwork_sym (n : nat) : nat := c08_param_lwork_sym_mul * n - c08_param_lwork_sym_sub.
+Definition c08_syev_call (tag : bool) (n : nat) (A : nat -> nat -> T) : c08_syev_args :=
+  C08Syev (if tag then c08_param_jobz_tag1_v else c08_param_jobz_tag0_v) c08_param_uplo_upper n (c08_flatten n A) n (c08_lwork_sym n).
+
 (* eigenValuesVectorsLapackImpl<Tag>: tag = true for EigenvaluesEigenvectors.  Returns (eigenvalues, eigenvector rows);
    with tag = false the eigenvector matrix is left untouched (None). *)
 Definition c08_sym_lapack (syev : c08_syev_args -> list T * list T * Z) (tag : bool) (n : nat) (A : nat -> nat -> T)
   : c08_lres (list T * option (list (list T))) :=
-  let '(w, a', info) := syev (C08Syev tag true n (c08_flatten n A) n (3 * n - 1)) in
+  let '(w, a', info) := syev (c08_syev_call tag n A) in
   if (info =? 0)%Z then C08_LOk (w, if tag then Some (c08_rows_list n a') else None) else C08_InvalidState.
 
 (* entry points: eigenValuesLapack passes Tag = EigenvaluesEigenvectors with a dummy matrix and drops it *)
@@ -254,9 +345,20 @@ Definition c08_nonsym_dyn_fixed (geev : c08_geev_args -> c08_geev_out) (want : b
   let '(wr, wi, vl, vr, info) := geev (C08Geev want false n (c08_flatten n A) n n n ((if want then 4 else 3) * n)) in
   if (info =? 0)%Z then C08_LOk (combine wr wi, if want then Some (c08_rows_list n vl) else None)
   else C08_InvalidState.
+(* DynamicMatrixHelp::eigenValuesNonSym AS THE SOURCE NOW WRITES IT: job characters, workspace formula and the array the
+   vectors are copied from are re-read from the source (Params_gen.v) *)
+Definition c08_dyn_call (want : bool) (n : nat) (A : nat -> nat -> T) : c08_geev_args :=
+  C08Geev (if want then c08_param_dyn_jobvl_want_v else c08_param_dyn_jobvl_nowant_v)
+          (if want then c08_param_dyn_jobvr_want_v else c08_param_dyn_jobvr_nowant_v)
+          n (c08_flatten n A) n n n ((if want then c08_param_dyn_lwork_want_mul else c08_param_dyn_lwork_nowant_mul) * n).
+Definition c08_nonsym_dyn_src (geev : c08_geev_args -> c08_geev_out) (want : bool) (n : nat) (A : nat -> nat -> T)
+  : c08_lres (list (T * T) * option (list (list T))) :=
+  let '(wr, wi, vl, vr, info) := geev (c08_dyn_call want n A) in
+  if (info =? 0)%Z then C08_LOk (combine wr wi, if want then Some (c08_rows_list n (if c08_param_dyn_read_vl then vl else vr)) else None)
+  else C08_InvalidState.
 (* FMatrixHelp::eigenValuesNonSym (FieldMatrix): eigenvalues only *)
 Definition c08_nonsym_fm (geev : c08_geev_args -> c08_geev_out) (n : nat) (A : nat -> nat -> T)
   : c08_lres (list (T * T)) :=
-  let '(wr, wi, vl, vr, info) := geev (C08Geev false false n (c08_flatten n A) n n n (3 * n)) in
+  let '(wr, wi, vl, vr, info) := geev (C08Geev c08_param_fm_jobvl_v c08_param_fm_jobvr_v n (c08_flatten n A) n n n (c08_param_fm_lwork_mul * n)) in
   if (info =? 0)%Z then C08_LOk (combine wr wi) else C08_InvalidState.
 End C08Handover.
